@@ -95,13 +95,22 @@ func retryOne(f []string) string {
 	}
 	rate := time.Duration(atoi(f[1]))
 	cancelMode := f[2]
-	var items []retryItem
+	var items, items2 []retryItem
+	second := false
 	for _, w := range f[3:] {
+		if w == "|" {
+			second = true
+			continue
+		}
 		it, ok := parseRetryItem(w)
 		if !ok {
 			return "skipped"
 		}
-		items = append(items, it)
+		if second {
+			items2 = append(items2, it)
+		} else {
+			items = append(items, it)
+		}
 	}
 	ctx, cancel := context.WithCancel(context.Background())
 	defer cancel()
@@ -204,6 +213,35 @@ func retryOne(f []string) string {
 	if !waitCut {
 		out += " waitnotcut"
 	}
+	if second {
+		// invoke the SAME returned function again with a fresh script (the context state carries over)
+		items, calls, cs, rates, exhausted = items2, 0, nil, nil, false
+		waitCancel = -1
+		res2, err2 := fn()
+		if exhausted {
+			return out + " | exhausted"
+		}
+		rs2 := "nil"
+		if res2 != nil {
+			rs2 = strconv.Itoa(res2.(int))
+		}
+		es2 := "nil"
+		switch {
+		case err2 == nil:
+		case errors.Is(err2, context.Canceled):
+			es2 = "ctx"
+		case bigbuff.VerifIsFatalError(err2):
+			es2 = "fatalwrapped"
+		default:
+			es2 = "other"
+			for id, b := range bases {
+				if err2 == b {
+					es2 = "e" + strconv.Itoa(id)
+				}
+			}
+		}
+		out += fmt.Sprintf(" | res=%s err=%s calls=%d cs=%s", rs2, es2, calls, fmtInts(cs))
+	}
 	return out
 }
 
@@ -243,6 +281,15 @@ func genRetry(r *rng.R, tier string, i int) []string {
 		}
 		if r.Chance(30) {
 			line += fmt.Sprintf(" o%d", r.Intn(100)) // never reached
+		}
+		if r.Chance(40) {
+			// second invocation of the same returned function
+			line += " |"
+			m := r.Intn(4)
+			for k := 0; k < m; k++ {
+				line += fmt.Sprintf(" e%d", r.Intn(5))
+			}
+			line += fmt.Sprintf(" o%d", r.Intn(100))
 		}
 		s = append(s, line)
 	}
